@@ -305,6 +305,12 @@ def _backward_callees(f, op, depth=0, seen=None):
             rv = d[3]
             for o in ([rv[1]] if rv[0] in ("use",) else [["cp", rv[2]]] if rv[0] == "ref" else [rv[2], rv[3]] if rv[0] == "bin" else [rv[2]] if rv[0] in ("un", "cast") else []):
                 out |= _backward_callees(f, o, depth + 1, seen)
+            if rv[0] == "use" and op_place(rv[1]) is not None:
+                # which component of a pair the value is (`let (third_party, plugin) = origin(..)`: swapping the two names at one
+                # site gives the same callee and another component)
+                fs = proj_fields(place_projs(op_place(rv[1])))
+                if len(fs) == 1 and (fs[0][0] == "tuple" or str(fs[0][0]).startswith("(")) and str(fs[0][1]).isdigit():
+                    out.add("component:%s" % fs[0][1])
             if rv[0] == "use" and op_const(rv[1]) is not None:
                 out.add("const:%s" % op_const(rv[1]).get("v"))
     return out
@@ -867,9 +873,23 @@ def r10l_skip_predicate_exact(ctx):
         f0 = crate.fns.get(root)
         if f0 is None:
             continue
-        tys = [f0.local_ty(i) for i in range(1, f0.argc + 1)]
+        def is_walk(rt, depth=0):
+            g0 = crate.fns.get(rt)
+            if g0 is None:
+                return False
+            if any("Pattern" in g0.local_ty(i) for i in range(1, g0.argc + 1)):
+                return True
+            # ... or matches paths against exclude patterns itself (the patterns arrive inside an options value)
+            if any(re.search(r"glob::Pattern::matches\w*$", c.get("res") or "") for g in crate.real_fns() if g.root == rt for _b, c in g.calls()):
+                return True
+            if depth >= 2:
+                return False
+            # a helper (an extracted entry filter) used by the walk only
+            users = {g.root for g in crate.real_fns() for _bb, c in g.calls()
+                     if g.root != rt and (c.get("res") == rt or any((op_const(a) or {}).get("res") == rt for a in c["args"] if isinstance(a, list)))}
+            return bool(users) and all(is_walk(u, depth + 1) for u in users)
         key = "R10l|%s|ignore table consulted outside the workspace walk" % root
-        if any("Pattern" in t for t in tys):
+        if is_walk(root):
             r.ok(sample={"workspace_walk": root.split("::")[-1]})
         else:
             r.violate(key, "%s consults the workspace's directory-ignore table but is not the workspace walk (it is not handed "
@@ -1001,30 +1021,97 @@ def r10o_root_known_before_analysis(ctx):
     readers = sorted({op.fn.root for op in ops if op.fn.root in reach_entry or op.fn.id in reach_entry})
     r.counts["consulted_during_analysis_by"] = ", ".join(x.split("::")[-1] for x in readers)
     n = 0
-    by_fn = defaultdict(list)
-    for op in ops:
-        by_fn[op.fn.id].append(op)
-    for fid, fops in sorted(by_fn.items()):
-        f = crate.fns[fid]
-        starts = []
+    # who stores into the cell: a `deref_mut` of its guard (readers only deref)
+    storers = set()
+    for g in crate.real_fns():
+        for _b, c in g.calls():
+            if re.search(r"DerefMut>?::deref_mut$", c.get("res") or "") and \
+                    re.search(r"std::sync::MutexGuard<'_, std::option::Option<std::path::PathBuf>>", " ".join(c.get("targs", []))):
+                storers.add(g.id)
+    r.counts["stored_by"] = ", ".join(sorted(x.split("::")[-1] for x in storers))
+    def _reaching(targets):
+        rev = defaultdict(set)
+        for a, es in db.cg.edges.items():
+            for _bb, t, via in es:
+                if via != "spawn":
+                    rev[t].add(a)
+        seen, st = set(targets), list(targets)
+        while st:
+            x = st.pop()
+            for a in rev.get(x, ()):
+                if a not in seen:
+                    seen.add(a)
+                    st.append(a)
+        return seen
+    to_entry = _reaching({entry.id})
+    to_storer = _reaching(storers)
+    for f in crate.real_fns():
+        if f.kind not in ("fn", "method", "closure", "coroutine"):
+            continue
+        starts, takes = [], []
         for bb, c in f.calls():
-            if c.get("res_local") and c.get("res") != entry.id and entry.id in db.cg.reach([c["res"]]):
+            callee = c.get("res") if c.get("res_local") else None
+            via_clos = any(cid in to_entry for cid, _l in c.get("clos", []))
+            if (callee and callee in to_entry) or via_clos:
                 starts.append((bb, c))
-            elif c.get("res") == entry.id:
-                starts.append((bb, c))
-            elif any(entry.id in db.cg.reach([cid]) for cid, _l in c.get("clos", [])):
-                starts.append((bb, c))
-        if not starts:
+            elif callee and callee in to_storer:
+                takes.append(bb)      # a helper that stores the root (and analyses nothing)
+        if f.id in storers:
+            takes += [op.bb for op in ops if op.fn.id == f.id]
+        if not starts or not takes:
             continue
         n += 1
         dom = f.dominators()
-        late = [(bb, c) for bb, c in starts if not any(op.bb in dom.get(bb, set()) for op in fops)]
-        key = "R10o|%s|analysis started before the root is stored" % fid
+        late = [(bb, c) for bb, c in starts if not any(t in dom.get(bb, set()) for t in takes)]
+        key = "R10o|%s|analysis started before the root is stored" % f.id
         if late and readers:
-            r.violate(key, "%s starts analyses at %s before it takes the root cell `%s` (%s): what is analysed there is "
-                           "classified against no root" % (fid, crate.span_str(late[0][1]["span"]), cell,
-                                                           crate.span_str(fops[0].call["span"])))
+            r.violate(key, "%s starts analyses at %s before it stores the root cell `%s`: what is analysed there is "
+                           "classified against no root" % (f.id, crate.span_str(late[0][1]["span"]), cell))
         else:
-            r.ok(sample={"stores the root and analyses": fid.split("::")[-1], "analysis starts": len(starts)})
+            r.ok(sample={"stores the root and analyses": f.id.split("::")[-1], "analysis starts": len(starts)})
     r.floor("functions that store the root and start analyses", n, 1)
+    return r
+
+
+# ----------------------------------------------------------------------- R10p: a pattern is compiled as it was written
+def r10p_pattern_compiled_as_written(ctx):
+    r = Result("R10p", "the text handed to the glob compiler (`glob::Pattern::new`) is the configured string itself: no trimming, "
+                       "stripping, replacing, case folding or splitting call lies in the backward slice of its argument. A "
+                       "'normalisation' (`trim_start_matches(['.', '/'])`) changes which paths a pattern matches -- `.ci/**` "
+                       "becomes `ci/**` -- for exactly the spellings no test lists")
+    from .r3 import _slice_calls
+    crate = ctx.bin
+    n = 0
+
+    def reads_exclude_key(root):
+        # the function family that turns the `exclude` key of the configuration table into patterns (the key is part of the
+        # configuration format: the raw table's field is (de)serialised under its own name)
+        for g in crate.real_fns():
+            if g.root != root:
+                continue
+            for b in g.blocks:
+                places = [pl for st in b["s"] if st[0] == "=" for pl in _rv_places(st[2]) if pl is not None]
+                if b["t"][0] == "call":
+                    places += [op_place(a) for a in b["t"][1]["args"] if op_place(a) is not None]
+                for pl in places:
+                    if any(nm == "exclude" for _o, nm in proj_fields(place_projs(pl))):
+                        return True
+        return False
+    from ..sel import _rv_places
+    for f in crate.real_fns():
+        for bb, c in f.calls():
+            if not re.search(r"glob::Pattern::new$", c.get("res") or "") or not c["args"]:
+                continue
+            if not reads_exclude_key(f.root):
+                continue      # patterns of another setting (a list of file-name globs in one string is split and trimmed by design)
+            n += 1
+            calls = _slice_calls(crate, f, c["args"][0])
+            edits = sorted({x.split("::")[-1] for x in calls if re.search(
+                r"str>?::(trim\w*|strip_\w+|replace\w*|to_\w*case|to_lowercase|to_uppercase|split\w*|rsplit\w*)$|String::(remove|truncate|drain|replace_range|retain|insert\w*)$", x or "")})
+            key = "R10p|%s|pattern text edited before it is compiled" % f.root
+            if edits:
+                r.violate(key, "%s compiles a pattern at %s whose text went through %s" % (f.root, crate.span_str(c["span"]), edits))
+            else:
+                r.ok(sample={"compiled in": f.id.split("::")[-2:], "calls in the slice of the text": len(calls)})
+    r.floor("compilations of exclude patterns", n, 1)
     return r
